@@ -1,11 +1,15 @@
 import DatamonVerif.Drv.C22
 import DatamonVerif.Drv.C21
+import DatamonVerif.Drv.Cafs
 open DV
 
 def main (args : List String) : IO UInt32 := do
   let inp ← IO.getStdin
   let out ← IO.getStdout
   match args with
+  | ["model", "C01"] => loop CafsDrv.handler inp out CafsDrv.handler.init; return 0
+  | ["model", "C02"] => loop CafsDrv.handler inp out CafsDrv.handler.init; return 0
+  | ["model", "C03"] => loop CafsDrv.handler inp out CafsDrv.handler.init; return 0
   | ["model", "C21"] => loop C21.handler inp out C21.handler.init; return 0
   | ["model", "C22"] => loop C22.handler inp out C22.handler.init; return 0
   | _ => IO.eprintln "usage: dvdriver model <Cxx>"; return 2
